@@ -43,7 +43,7 @@ class SegsStub:
 def _run(fx, it, content, whole_mode, whole_enc, fit_single=None, chunk_version=None, **kw):
     """Interpret encode_sequence with recorders.  chunk_version: f(chunk) -> version for find_version on a chunk."""
     md = modes(fx)
-    rec = {'make_segment': [], 'find_version': [], '_encode': [], 'parity': [], 'prepare': []}
+    rec = {'make_segment': [], 'find_version': [], '_encode': [], 'parity': [], 'prepare': [], 'fits': [], 'keep': []}
     seg_of = {}
 
     def prepare_data(content_, mode, encoding):
@@ -67,12 +67,16 @@ def _run(fx, it, content, whole_mode, whole_enc, fit_single=None, chunk_version=
             if fit_single is None:
                 from ..interp import Raised
                 raise Raised(None, it.exc_class(ast.parse('DataOverflowError', mode='eval').body, genv), 'overflow')
+            rec['fits'].append((id(segments), fit_single))
             return fit_single
-        return chunk_version(what) if chunk_version else 1
+        r = chunk_version(what) if chunk_version else 1
+        rec['fits'].append((id(segments), r))
+        return r
 
     def _encode(segments, error=None, version=None, mask=None, eci=None, boost_error=None, sa_info=None):
         first = segments.segments[0]
-        rec['_encode'].append(dict(what=seg_of.get(id(segments), seg_of.get(id(first))), error=error, version=version, mask=mask,
+        rec['keep'].append(segments)
+        rec['_encode'].append(dict(segid=id(segments), what=seg_of.get(id(segments), seg_of.get(id(first))), error=error, version=version, mask=mask,
                                    eci=eci, boost_error=boost_error, sa_info=sa_info, mode=first.mode, encoding=first.encoding))
         return ('SYM', len(rec['_encode']))
 
@@ -240,13 +244,52 @@ def r3(fx):
     yield ob('bytes content is used as it is (no str())', seen[-1] == (b'raw', None), pf, got=seen[-1], want=(b'raw', None))
 
 
-@rule('C08', 'R4', 2, 'every chunk is dominated by a fit witness before _encode (shared with C04.R5)')
-def r4(fx):
+F7_INSTANCE = '_encode(<chunk segments>, version=<caller-supplied version>) in the comprehension over the chunks'
+
+
+def fit_witness(fx):
+    """For every way encode_sequence reaches _encode: was find_version run on the very Segments object handed to _encode,
+    and is the version handed over at least its result?  (find_version returns the smallest fitting version.)"""
     fn = fx.fn('encoder', 'encode_sequence')
-    calls = [c for c in src.calls_in(fn, '_encode', into_nested=False) if src.call_name(c) == '_encode']
-    for c in calls:
-        seg, ver = p04._fit_witness(fx, fn, c)
-        yield from p04._witness_ob(fx, fn, c, seg, ver)
+    it = Interp(max_steps=20_000_000)
+
+    def cv(chunk):
+        return 3 + (ord(chunk[0]) % 5)
+    scen = [
+        ('one plain symbol (message fits the requested version)', dict(version=5), 3, 'whole'),
+        ('one plain symbol (no version requested is refused; version = result)', dict(version=7), 7, 'whole'),
+        ('_encode(<chunk segments>) in the comprehension over the chunks', dict(symbol_count=3), None, 'chunks'),
+        ('_encode(<chunk segments>) with symbol_count and version both given', dict(symbol_count=4, version=2), None, 'chunks'),
+        (F7_INSTANCE, dict(version=5), 9, 'chunks'),
+        (F7_INSTANCE, dict(version=2), None, 'chunks'),
+    ]
+    seen = {}
+    for key, kw, fit, kind in scen:
+        res, rec = _run(fx, it, CONTENT * 2, 'byte', 'iso-8859-1', fit_single=fit, chunk_version=cv, **kw)
+        if not isinstance(res, list) or not rec['_encode']:
+            raise Unknown(f'fit witness scenario {kw}: {res if isinstance(res, str) else "no _encode call"}')
+        probs = []
+        for e in rec['_encode']:
+            if (kind == 'whole') != isinstance(e['what'], tuple):
+                probs.append(f'unexpected shape: {"one plain symbol" if isinstance(e["what"], tuple) else "chunks"}')
+                continue
+            fits = [r for sid, r in rec['fits'] if sid == e['segid']]
+            if not fits:
+                probs.append(f'no version search over the segments of chunk {str(e["what"])[:8]!r} precedes _encode(version={e["version"]})')
+            elif min(fits) > e['version']:
+                probs.append(f'chunk needs version {min(fits)} but _encode gets version {e["version"]}')
+        ok = not probs
+        if key in seen:
+            seen[key] = (seen[key][0] and ok, seen[key][1] or (probs[0] if probs else ''))
+        else:
+            seen[key] = (ok, probs[0] if probs else '')
+    for key, (ok, why) in seen.items():
+        yield ob(key, ok, fn, got=why or 'searched and fitting', want='find_version(<the same segments>) <= version before _encode')
+
+
+@rule('C08', 'R4', 4, 'every chunk is searched for its smallest fitting version before _encode, and gets a version not below it (shared with C04.R5)')
+def r4(fx):
+    yield from fit_witness(fx)
 
 
 @rule('C08', 'R6', 100, 'the 20 header bits are budgeted: bits written = bits budgeted for every Structured Append combination')
